@@ -379,6 +379,7 @@ class Sim:
         self.cmd_windows = []  # (label, job_i, start_ev, end_ev, returncode)
         self.monitor = []  # violations found by monitors while the session runs
         self.flags = set()
+        self.counters = {}
 
     # -- logging -----------------------------------------------------------------------------
     def logev(self, *rec):
@@ -552,6 +553,9 @@ class Sim:
             self._patch(su_watcher, "Inotify", fake_inotify)
         for obj, name, value in self.cfg.get("extra_patches", ()):
             self._patch(obj, name, value)
+        for factory in self.cfg.get("monitors", ()):
+            for obj, name, value in factory(self):
+                self._patch(obj, name, value)
 
     def _uninstall(self):
         for obj, name, value in reversed(self._patches):
